@@ -22,6 +22,7 @@
 #include <dirent.h>
 #include "../core/prng.h"
 #include "../core/json.hpp"
+#include "../core/mutate.hpp"
 #include "simrt.h"
 
 using std::string;
@@ -274,6 +275,8 @@ static vector<string> draw_pool(sim_rng &r, const string &prop, int n) {
             if (c < 40) p.push_back(pick(r, G.gen)); else if (c < 70) p.push_back(pick(r, G.emails));
             else if (c < 85) p.push_back(pick(r, G.idn)); else p.push_back(pick(r, G.conv));
         }
+        // the neighbourhood of the hand-made shapes: seeded structural mutation of one address in five
+        if (sim_below(&r, 5) == 0) p.back() = mut::mutate(&r, p.back());
     }
     return p;
 }
